@@ -238,6 +238,15 @@ def cli_target_default(ctx, res, rule):
     for t in terms:
         feeding |= set(re.findall(r"args\.(\w+)", t))
     n = 0
+    allowed = {"load_removal_marker_target_names(args.removal_marker_target_config.some).into_iter().chain(args.removal_marker_target_name).collect()",
+               "[].into_iter().chain(args.removal_marker_target_name).collect()"}
+    n += 1
+    extra = sorted(terms - allowed)
+    if extra:
+        res.add(Finding(rule, fn, "target-set-sources", "the target set has a source other than the config-file lines and the repeated flag: `%s` (with no target option given "
+                        "it must be empty)" % extra[0][:200], loc=T.loc(b["tree"])))
+    else:
+        res.holds(rule, fn, "target-set-sources", "file lines + flag values only")
     for arg in sorted(feeding):
         n += 1
         ent = table.get(arg)
